@@ -172,7 +172,12 @@ def gen_filter(rnd, depth=0):
     if r < 0.65:
         return {"$not": gen_filter(rnd, depth + 1)}
     op = "$and" if r < 0.8 else "$or"
-    f = {op: [gen_filter(rnd, depth + 1) for _ in range(rnd.randint(1, 3))]}
+    subs = [gen_filter(rnd, depth + 1) for _ in range(rnd.randint(1, 3))]
+    if rnd.random() < 0.5:
+        # operands that repeat one and the same (key, value) condition next to their own ones (e.g. {"$or": [{k: v, n: 1}, {k: v, n: 2}]})
+        pivot = gen_leaf(rnd)
+        subs = [dict(list(pivot.items()) + [(k, v) for k, v in g.items() if k not in pivot]) if not any(k.startswith("$") for k in g) else {"$and": [dict(pivot), g]} for g in subs]
+    f = {op: subs}
     if rnd.random() < 0.3:
         f.update(gen_leaf(rnd))
     return f
